@@ -121,10 +121,10 @@ static int pool_init(ABT_pool pool, ABT_pool_config config)
     ABTI_CHECK_ERROR(abt_errno);
 
     access = p_pool->access;
-    if (access != ABT_POOL_ACCESS_PRIV) {
-        /* Initialize the mutex */
-        ABTD_spinlock_clear(&p_data->mutex);
-    }
+    (void)access;
+    /* Initialize the mutex.  pool_pop_wait() and pool_pop_timedwait() take it
+     * for every access type, including ABT_POOL_ACCESS_PRIV. */
+    ABTD_spinlock_clear(&p_data->mutex);
     thread_queue_init(&p_data->queue);
 
     p_pool->data = p_data;
